@@ -185,8 +185,16 @@ func runC13(c *Ctx) {
 		writesBy := map[*ssa.Function]map[string][]ssa.Instruction{}
 		for _, f := range SortedFuncs(pre) {
 			ws := requestWrites(p, f)
-			writesBy[f] = ws
-			for cell := range ws {
+			filtered := map[string][]ssa.Instruction{}
+			for cell, ins := range ws {
+				for _, in := range ins {
+					if !isRestoreStore(p, in) {
+						filtered[cell] = append(filtered[cell], in)
+					}
+				}
+			}
+			writesBy[f] = filtered
+			for cell := range filtered {
 				cells[cell] = append(cells[cell], FuncName(f))
 			}
 		}
@@ -215,8 +223,8 @@ func runC13(c *Ctx) {
 				continue
 			}
 			// find restore: a store in entry to that cell whose value is load(operation.F), on every path to d
-			restoreAll, saveFld := findRestore(p, entry, cell)
-			var restore []*ssa.Store
+			restoreAll, saveFld := findRestoreSites(p, entry, cell)
+			var restore []ssa.Instruction
 			for _, r := range restoreAll {
 				if ok, _ := MayReach(entry, r, func(in ssa.Instruction) bool { return in == ssa.Instruction(d) }); ok {
 					restore = append(restore, r)
@@ -229,7 +237,7 @@ func runC13(c *Ctx) {
 			}
 			isRestore := func(in ssa.Instruction) bool {
 				for _, r := range restore {
-					if in == ssa.Instruction(r) {
+					if in == r {
 						return true
 					}
 				}
@@ -251,6 +259,11 @@ func runC13(c *Ctx) {
 					ci, ok := in.(ssa.CallInstruction)
 					if !ok {
 						return false
+					}
+					for _, r2 := range restore {
+						if r2 == in {
+							return false // the restoring helper itself
+						}
 					}
 					for _, cal := range p.CalleesAt(ci) {
 						if reachWritesCell(p, cal, cell) {
@@ -506,4 +519,42 @@ func checkSave(p *Prog, pre map[*ssa.Function]bool, writesBy map[*ssa.Function]m
 		}
 	}
 	return true, ""
+}
+
+// findRestoreSites returns the instructions of fn that restore the request cell
+// from a saved operation field: direct stores, and calls of module helpers every
+// path of which performs such a store (helper extraction is a common refactoring).
+func findRestoreSites(p *Prog, fn *ssa.Function, cell string) ([]ssa.Instruction, *types.Var) {
+	var out []ssa.Instruction
+	stores, save := findRestore(p, fn, cell)
+	for _, st := range stores {
+		out = append(out, st)
+	}
+	for _, call := range Calls(fn) {
+		if _, isDefer := call.(*ssa.Defer); isDefer {
+			continue
+		}
+		for _, cal := range p.CalleesAt(call) {
+			if !p.inScope(cal) || call.Common().IsInvoke() {
+				continue
+			}
+			hs, hsave := findRestore(p, cal, cell)
+			if len(hs) == 0 || (save != nil && hsave != save) {
+				continue
+			}
+			isR := func(in ssa.Instruction) bool {
+				for _, h := range hs {
+					if in == ssa.Instruction(h) {
+						return true
+					}
+				}
+				return false
+			}
+			if ok, _ := MustPassToExit(cal, nil, isR, IsReturn, nil); ok {
+				out = append(out, call)
+				save = hsave
+			}
+		}
+	}
+	return out, save
 }
